@@ -260,12 +260,17 @@ Proof. intros H. apply sq_wrap_esc_closed. intros _. exact H. Qed.
 Theorem pg_quote_closed s : is_quoted s [39%N] = false -> quoted_token false (pg_quote s) = true.
 Proof. intros H. unfold pg_quote. rewrite H. apply sq_wrap_closed. Qed.
 
-Theorem single_quote_closed s t :
-  is_quoted s [39%N] = false -> single_quote s = Some t -> quoted_token false t = true.
+Theorem single_quote_closed unq s t :
+  is_quoted s [39%N] = false -> single_quote unq s = Some t -> quoted_token false t = true.
 Proof.
-  intros H. unfold single_quote. rewrite H. destruct (is_quoted s [34%N]); [discriminate|].
-  intros E. inversion E. apply sq_wrap_closed.
+  intros H. unfold single_quote. rewrite H. destruct (is_quoted s [34%N]).
+  - destruct (unq s) as [v|]; [|discriminate]. intros E. injection E as <-. apply sq_wrap_closed.
+  - intros E. injection E as <-. apply sq_wrap_closed.
 Qed.
+(** an input already quoted with ' is passed through: the output is closed exactly when the input is *)
+Theorem single_quote_passthrough unq s :
+  is_quoted s [39%N] = true -> single_quote unq s = Some s.
+Proof. intros H. unfold single_quote. rewrite H. reflexivity. Qed.
 
 (** * 2. strconv.Quote *)
 (** no bare double quote, every backslash is followed by a byte *)
@@ -349,8 +354,8 @@ Theorem mysql_quote_closed np s :
   is_quoted s [34%N; 39%N] = false -> quoted_token true (mysql_quote np s) = true.
 Proof. intros H. unfold mysql_quote. rewrite H. apply go_quote_closed. Qed.
 
-(** * 3. Builder.Ident *)
-Lemma ident_wrap q s : s <> [] -> ident q q s = [q] ++ s ++ [q].
+(** * 3. Builder.Ident: first the spelling before the fix ([raw_ident]), then the repaired one *)
+Lemma ident_wrap q s : s <> [] -> raw_ident q q s = [q] ++ s ++ [q].
 Proof. destruct s; [congruence|reflexivity]. Qed.
 
 (** every maximal run of [q] bytes has even length ([odd] = parity of the run being read) *)
@@ -412,7 +417,7 @@ Proof.
 Qed.
 
 Lemma quoted_token_ident q s : is_quote q = true -> s <> [] ->
-  quoted_token false (ident q q s) = st_in (S (S (length s))) q s [59%N; 10%N].
+  quoted_token false (raw_ident q q s) = st_in (S (S (length s))) q s [59%N; 10%N].
 Proof.
   intros Hq Hs. rewrite ident_wrap by exact Hs. rewrite quoted_token_wrap. rewrite Hq. reflexivity.
 Qed.
@@ -426,7 +431,7 @@ Qed.
 
 (** 3c, one direction, no side condition *)
 Theorem ident_closed_even q s : is_quote q = true -> s <> [] ->
-  even_runs q s = true -> quoted_token false (ident q q s) = true.
+  even_runs q s = true -> quoted_token false (raw_ident q q s) = true.
 Proof.
   intros Hq Hs He. rewrite quoted_token_ident by assumption.
   apply (er_walk q _ Hq s); [lia|exact He].
@@ -434,13 +439,13 @@ Qed.
 
 (** 3a *)
 Theorem ident_closed_notin q s : is_quote q = true -> s <> [] ->
-  ~ In q s -> quoted_token false (ident q q s) = true.
+  ~ In q s -> quoted_token false (raw_ident q q s) = true.
 Proof. intros Hq Hs H. apply ident_closed_even; [exact Hq|exact Hs|apply er_notin; exact H]. Qed.
 
 (** 3c, exact, when the name contains no quote character other than [q] *)
 Theorem ident_closed_iff q s : is_quote q = true -> s <> [] ->
   (forall b, In b s -> is_quote b = true -> b = q) ->
-  (quoted_token false (ident q q s) = true <-> even_runs q s = true).
+  (quoted_token false (raw_ident q q s) = true <-> even_runs q s = true).
 Proof.
   intros Hq Hs Honly. rewrite quoted_token_ident by assumption.
   destruct (er_walk_exact q [59%N; 10%N] Hq s (S (S (length s))) ltac:(lia) Honly) as [-> _].
@@ -449,16 +454,65 @@ Qed.
 
 (** 3b: witnesses *)
 (* a";b : the token "a";b" is not closed *)
-Example ident_not_closed : quoted_token false (ident 34 34 [97; 34; 59; 98]%N) = false.
+Example ident_not_closed : quoted_token false (raw_ident 34 34 [97; 34; 59; 98]%N) = false.
 Proof. vm_compute. reflexivity. Qed.
 (* a""b : contains the quote and is closed, so [~ In q s] is sufficient but not necessary *)
-Example ident_closed_doubled : quoted_token false (ident 34 34 [97; 34; 34; 98]%N) = true.
+Example ident_closed_doubled : quoted_token false (raw_ident 34 34 [97; 34; 34; 98]%N) = true.
 Proof. vm_compute. reflexivity. Qed.
 (* a"'"'"b : closed ("a" '"' "b") with odd runs: the side condition of [ident_closed_iff] is needed *)
 Example ident_closed_mixed :
-  quoted_token false (ident 34 34 [97; 34; 39; 34; 39; 34; 98]%N) = true /\ even_runs 34 [97; 34; 39; 34; 39; 34; 98]%N = false.
+  quoted_token false (raw_ident 34 34 [97; 34; 39; 34; 39; 34; 98]%N) = true /\ even_runs 34 [97; 34; 39; 34; 39; 34; 98]%N = false.
 Proof. vm_compute. split; reflexivity. Qed.
 (* 4: with backslash escapes the single-quote wrap of  ab\  is not closed *)
 Example sq_wrap_esc_not_closed :
   quoted_token true ([39%N] ++ double_sq [97; 98; 92]%N ++ [39%N]) = false.
 Proof. vm_compute. reflexivity. Qed.
+
+(** ** the repaired Builder.Ident: closed for EVERY name *)
+Lemma double_q_ne q s : s <> [] -> double_q q s <> [].
+Proof. destruct s as [|c t]; [congruence|]. simpl. destruct (N.eqb c q); discriminate. Qed.
+Lemma ident_raw q s : ident q q s = raw_ident q q (double_q q s).
+Proof.
+  destruct s as [|c t]; [reflexivity|]. unfold ident, raw_ident.
+  destruct (double_q q (c :: t)) eqn:E; [exfalso; revert E; apply double_q_ne; discriminate|reflexivity].
+Qed.
+Lemma er_double q : forall s, er q false (double_q q s) = true.
+Proof.
+  induction s as [|c t IH]; [reflexivity|]. cbn [double_q]. destruct (N.eqb c q) eqn:E.
+  - cbn [er]. rewrite !N.eqb_refl. cbn [negb]. exact IH.
+  - cbn [er]. rewrite E. cbn [negb andb]. exact IH.
+Qed.
+Theorem ident_closed q s : is_quote q = true -> s <> [] -> quoted_token false (ident q q s) = true.
+Proof.
+  intros Hq Hs. rewrite ident_raw. apply ident_closed_even; [exact Hq|apply double_q_ne; exact Hs|apply er_double].
+Qed.
+
+(** with backslash escapes (MySQL scanner): closed when the name has no backslash *)
+Lemma dq_walk q : is_quote q = true -> q <> 92%N -> forall s f rest, ~ In 92%N s -> (length s < f)%nat ->
+  seg_result f true (bw q true false (S (length (double_q q s))) (double_q q s ++ q :: rest)) = true.
+Proof.
+  intros Hq Hq92. induction s as [|c t IH]; intros f rest Hb Hf.
+  - simpl. assert (N.eqb q 92 = false) as -> by (apply N.eqb_neq; exact Hq92). simpl. rewrite N.eqb_refl. reflexivity.
+  - simpl in Hf. assert (Hb' : ~ In 92%N t) by (intros I; apply Hb; right; exact I).
+    simpl double_q. destruct (N.eqb c q) eqn:Ec.
+    + apply N.eqb_eq in Ec. subst c. cbn [app length bw].
+      assert (N.eqb q 92 = false) as E92 by (apply N.eqb_neq; exact Hq92).
+      rewrite E92. cbn [andb]. rewrite N.eqb_refl.
+      destruct f as [|f]; [lia|]. unfold seg_result. rewrite qsegs_S. rewrite Hq. cbn [andb].
+      apply IH; [exact Hb'|lia].
+    + cbn [app length bw].
+      assert (N.eqb c 92 = false) as -> by (apply N.eqb_neq; intros ->; apply Hb; left; reflexivity).
+      cbn [andb]. rewrite Ec. apply IH; [exact Hb'|lia].
+Qed.
+
+Theorem ident_closed_esc q s : is_quote q = true -> s <> [] -> ~ In 92%N s ->
+  quoted_token true (ident q q s) = true.
+Proof.
+  intros Hq Hs Hb. assert (Hq92 : q <> 92%N) by (apply is_quote_cases in Hq; lia).
+  unfold ident. destruct s as [|c t] eqn:Es; [congruence|]. rewrite <- Es in *.
+  rewrite quoted_token_wrap. rewrite Hq. cbn [andb].
+  apply (dq_walk q Hq Hq92 s (S (S (length (double_q q s)))) [59%N; 10%N] Hb).
+  assert (length s <= length (double_q q s))%nat.
+  { clear. induction s as [|x r IH]; simpl; [lia|]. destruct (N.eqb x q); simpl; lia. }
+  lia.
+Qed.
